@@ -75,7 +75,7 @@ def gen(rng, malformed):
     names = []
     for p in paths:
         names += ['is_' + '_'.join(p), 'to_' + '_'.join(p)]
-    names += ['foo', 'trigger']
+    names += ['foo', 'trigger', 'to']
     if sep != '_' and not malformed:
         # in-envelope: the model does not define is_<top> / to_<top> itself (KF-C11-2 otherwise)
         names = [n for n in names if not any(n in ('is_' + t[0], 'to_' + t[0]) for t in forest)]
@@ -209,10 +209,18 @@ def enc(case):
 
 
 # ------------------------------------------------------------------ implementation
-def to_states_arg(forest):
+def to_states_arg(forest, rec=None, prefix=()):
+    """states argument; with rec every state gets recording on_enter / on_exit callbacks"""
     out = []
     for n, kids in forest:
-        out.append({'name': n, 'children': to_states_arg(kids)} if kids else n)
+        p = prefix + (n,)
+        if rec is None:
+            out.append({'name': n, 'children': to_states_arg(kids)} if kids else n)
+            continue
+        d = {'name': n, 'on_enter': [rec('enter', p)], 'on_exit': [rec('exit', p)]}
+        if kids:
+            d['children'] = to_states_arg(kids, rec, p)
+        out.append(d)
     return out
 
 
@@ -233,13 +241,16 @@ class EnumTree(object):
                     group(kids, p)
         group(forest, ())
 
-    def states_arg(self, forest, prefix=()):
+    def states_arg(self, forest, prefix=(), rec=None):
         out = []
         for n, kids in forest:
             p = prefix + (n,)
             d = {'name': self.member[p]}
+            if rec is not None:
+                d['on_enter'] = [rec('enter', p)]
+                d['on_exit'] = [rec('exit', p)]
             if kids:
-                d['children'] = self.states_arg(kids, p)
+                d['children'] = self.states_arg(kids, p, rec)
             out.append(d)
         return out
 
@@ -283,10 +294,21 @@ def impl(case):
         return [v]
 
     paths = paths_of(case['forest'])
-    machine = HM(model=None, states=en.states_arg(case['forest']) if en else to_states_arg(case['forest']),
+    trace = []
+
+    seen = []      # what the callbacks see in the EventData (send_event=True)
+
+    def rec(kind, p):
+        def cb(event_data):
+            trace.append((kind, p))
+            tr_ = event_data.transition
+            seen.append((getattr(event_data, 'source_name', None), getattr(event_data, 'source_path', None),
+                         getattr(tr_, 'source', None), getattr(tr_, 'dest', None)))
+        return cb
+    machine = HM(model=None, states=en.states_arg(case['forest'], (), rec) if en else to_states_arg(case['forest'], rec),
                  initial=sep.join(leaves_of(case['forest'])[0]),
                  transitions=[[t, ref(src), ref(dst)] for t, src, dst in case['transitions']],
-                 auto_transitions=cfg['auto'], model_override=cfg['over'])
+                 auto_transitions=cfg['auto'], model_override=cfg['over'], send_event=True)
     objs = c11.Objects()
     models = []
 
@@ -310,6 +332,7 @@ def impl(case):
         for mid, model in models:
             rows = []
             single = len(names_of(model.state)) == 1
+            to_kind = c11.kind_of(objs, mid, model, 'to', 'state')
             for p in paths:
                 ik, f = resolve(model, mid, 'is_', p)
                 calls = []
@@ -319,14 +342,38 @@ def impl(case):
                         calls = [7, 7]
                 tk, g = resolve(model, mid, 'to_', p)
                 tocall = []
+                helper_trace = None
                 if tk == [2] and single:
                     saved = model.state
+                    del trace[:]
                     r = c11.res_of(g)
+                    helper_trace = list(trace)
                     after = names_of(model.state)
                     machine.set_state(saved, model)
                     tocall = [r == [0, True], sx_str(after[0])] if (r[0] == 0 and len(after) == 1) else [7, r]
-                rows.append([sx_str(sep.join(p)), ik, calls, tk, tocall])
-            out.append([mid, rows])
+                # model.to(<path name>): ends in p; same exit / enter callbacks as the to_<p> helper
+                toeq = []
+                if to_kind == [2] and single:
+                    saved = model.state
+                    here = names_of(saved)[0]
+                    del trace[:]
+                    del seen[:]
+                    try:
+                        model.to(sep.join(p))
+                        ok = names_of(model.state) == [sep.join(p)] and (helper_trace is None or list(trace) == helper_trace)
+                        # every callback is told where the model came from (EventData.source_name / source_path;
+                        # EventData.transition is None during to(): not required)
+                        ok = ok and bool(seen) and all(x[:2] == (here, here.split(sep)) for x in seen)
+                    except Exception:   # noqa
+                        ok = False
+                    machine.set_state(saved, model)
+                    toeq = [1 if ok else 0]
+                rows.append([sx_str(sep.join(p)), ik, calls, tk, tocall, toeq])
+            par = []
+            if to_kind == [2] and len(names_of(model.state)) > 1:
+                r = c11.res_of(model.to, sep.join(paths[0]))
+                par = [r[1]] if r[0] == 1 else [7]
+            out.append([mid, rows, to_kind, par])
         return out
 
     def extra():
@@ -457,15 +504,22 @@ def oracle(case, obs):
             active[op[1]['id']] = [op[2]]
         elif op[0] == 'set' and op[1] in active:
             active[op[1]] = op[2]
-        for mid, rows in models:
+        for mid, rows, to_kind, par in models:
+            own_to = own[mid].get('to')
+            if own_to is not None and own_to[0] in ('pre', 'own') and to_kind != [0 if own_to[0] == 'pre' else 4, own_to[1]]:
+                return 'model %d: own attribute to was overwritten' % mid
+            if par and par != [0]:
+                return 'model %d: to() from a parallel configuration did not raise MachineError' % mid
             act = active[mid]
-            for name, ik, calls, tk, tocall in rows:
+            for name, ik, calls, tk, tocall, toeq in rows:
                 p = un_str(name).split(cfg['sep'])
                 flat = 'is_' + '_'.join(p)
                 o = own[mid].get(flat)
                 if cfg['sep'] == '_' and o is not None and o[0] in ('pre', 'own') and not cfg['over'] \
                         and ik != [0 if o[0] == 'pre' else 4, o[1]]:
                     return 'model %d: own attribute %s overwritten' % (mid, flat)
+                if toeq and toeq != [1]:
+                    return 'model %d: model.to(%r) does not end / run callbacks like the to_ helper' % (mid, un_str(name))
                 if tocall and tocall != [True, name]:
                     return 'model %d: %s() did not end in %s: %r' % (mid, 'to_' + un_str(name), un_str(name), tocall)
                 if ik != [2]:
@@ -511,7 +565,7 @@ def stats(case, obs, dist):
         if any(len(p) > 1 and p[-1] in [t[0] for t in case['forest']] for p in paths_of(case['forest'])):
             bump('hsm_enum_nested_namesake_of_top_level')
     for _, models in obs[2]:
-        for _, rows in models:
+        for _, rows, _tk, _par in models:
             bump('hsm_to_calls', sum(1 for r in rows if len(r) > 4 and r[4]))
     bump('hsm_states', len(paths_of(case['forest'])))
     for op, st in zip(case['ops'], obs[2]):
